@@ -284,3 +284,6 @@ def run(ctx):
     r8_4(ctx)
     r8_5(ctx)
     r8_6(ctx)
+    from ..initflags import group_rule, separation_rule
+    group_rule(ctx, "R8.7", "logs", "some logs restart from empty while others continue, so the logs no longer have one entry per step")
+    separation_rule(ctx, "R8.8")
